@@ -422,7 +422,10 @@ func (dr *DialogueRunner) RestoreAt(snapshot *Snapshot) error {
 		return fmt.Errorf("dialogue does not contain a node with title [%s]", snapshot.CurrentNode)
 	}
 
-	dr.visitedNodes = snapshot.VisitedNodes
+	dr.visitedNodes = cloneMap(snapshot.VisitedNodes)
+	dr.variableSnapshot = cloneMap(snapshot.Variables)
+	dr.lastStatement = nil
+	dr.commandErrChan = nil
 	dr.variableStorer.Clear()
 	for variable, value := range snapshot.Variables {
 		if value.Boolean != nil {
@@ -468,10 +471,19 @@ func (dr *DialogueRunner) ConvertAndAddCommand(commandID string, command any) er
 // It can then be used to later restore the state of the dialogue runner.
 func (dr *DialogueRunner) Snapshot() *Snapshot {
 	return &Snapshot{
-		Variables:    dr.variableSnapshot,
+		Variables:    cloneMap(dr.variableSnapshot),
 		CurrentNode:  dr.currentNode,
-		VisitedNodes: dr.visitedNodes,
+		VisitedNodes: cloneMap(dr.visitedNodes),
 	}
+}
+
+// cloneMap returns a new map holding the entries of m.
+func cloneMap[K comparable, V any](m map[K]V) map[K]V {
+	clone := make(map[K]V, len(m))
+	for key, value := range m {
+		clone[key] = value
+	}
+	return clone
 }
 
 type statementQueue struct {
